@@ -193,13 +193,13 @@ Proof.
 Qed.
 
 (* where a node lands: its new parent's children split into those before and those after it *)
-Definition lands (Pos : list nid -> list nid -> Prop) (t s s' : itree) : Prop :=
-  exists a b, ikids s = a ++ b /\ s' = INode (iid s) (ipayload s) (a ++ t :: b) /\ Pos (map iid a) (map iid b).
+Definition lands (Pos : nid -> list nid -> list nid -> Prop) (t s s' : itree) : Prop :=
+  exists a b, ikids s = a ++ b /\ s' = INode (iid s) (ipayload s) (a ++ t :: b) /\ Pos (iid s) (map iid a) (map iid b).
 (* directly after the first x / directly before the first x / first / last *)
-Definition pos_after (x : nid) (La Lb : list nid) : Prop := exists L0, La = L0 ++ [x] /\ ~ In x L0.
-Definition pos_before (x : nid) (La Lb : list nid) : Prop := exists L1, Lb = x :: L1 /\ ~ In x La.
-Definition pos_first (La Lb : list nid) : Prop := La = [].
-Definition pos_last (La Lb : list nid) : Prop := Lb = [].
+Definition pos_after (x : nid) (P : nid) (La Lb : list nid) : Prop := exists L0, La = L0 ++ [x] /\ ~ In x L0.
+Definition pos_before (x : nid) (P : nid) (La Lb : list nid) : Prop := exists L1, Lb = x :: L1 /\ ~ In x La.
+Definition pos_first (p : nid) (P : nid) (La Lb : list nid) : Prop := P = p /\ La = [].
+Definition pos_last (p : nid) (P : nid) (La Lb : list nid) : Prop := P = p /\ Lb = [].
 
 Lemma not_in_existsb x (l : list itree) : existsb (has_id x) l = false -> ~ In x (map iid l).
 Proof. rewrite existsb_ids. intros H. apply memb_false. exact H. Qed.
@@ -222,16 +222,18 @@ Proof.
   unfold has_id in H1. apply N.eqb_eq in H1. rewrite H1. split; [reflexivity|apply not_in_existsb, H2].
 Qed.
 Lemma lands_first p t s s' u : at_tag p (fun q => INode (iid q) (ipayload q) (t :: ikids q)) s = Some (s', u) ->
-  lands pos_first t s s'.
+  lands (pos_first p) t s s'.
 Proof.
-  unfold at_tag. destruct (has_id p s && nkind_eqb (ikind s) NTag)%bool; [|discriminate]. intros H. injection H as <- _.
-  exists [], (ikids s). cbn [app map]. repeat split; reflexivity.
+  unfold at_tag. destruct (has_id p s && nkind_eqb (ikind s) NTag)%bool eqn:E; [|discriminate]. intros H. injection H as <- _.
+  apply andb_true_iff in E as [E _]. unfold has_id in E. apply N.eqb_eq in E.
+  exists [], (ikids s). cbn [app map]. repeat split; auto.
 Qed.
 Lemma lands_last p t s s' u : at_tag p (fun q => INode (iid q) (ipayload q) (ikids q ++ [t])) s = Some (s', u) ->
-  lands pos_last t s s'.
+  lands (pos_last p) t s s'.
 Proof.
-  unfold at_tag. destruct (has_id p s && nkind_eqb (ikind s) NTag)%bool; [|discriminate]. intros H. injection H as <- _.
-  exists (ikids s), []. rewrite app_nil_r. repeat split; reflexivity.
+  unfold at_tag. destruct (has_id p s && nkind_eqb (ikind s) NTag)%bool eqn:E; [|discriminate]. intros H. injection H as <- _.
+  apply andb_true_iff in E as [E _]. unfold has_id in E. apply N.eqb_eq in E.
+  exists (ikids s), []. rewrite app_nil_r. repeat split; auto.
 Qed.
 
 Lemma lands_id Pos t s s' : lands Pos t s s' -> iid s' = iid s.
@@ -247,23 +249,22 @@ Lemma perm_swap3' {X} (a b c : list X) : Permutation (a ++ b ++ c) (a ++ c ++ b)
 Proof. apply Permutation_app_head. apply Permutation_app_comm. Qed.
 Ltac fail_show := match goal with |- ?g => fail 0 g end.
 (* the effect of moving the parentless node n to the place a local function g determines *)
-Theorem move_effect n ok (g : itree -> itree -> option (itree * unit)) Pos w :
+Theorem move_effect n ok (g : itree -> itree -> option (itree * unit)) Pos w tn l' w2 :
   (forall t s s' u, g t s = Some (s', u) -> lands Pos t s s') ->
   NoDup (world_ids_a w) ->
-  a_move n ok g w = w \/
-  exists tn P p La Lb,
-    In tn (loose w) /\ iid tn = n /\ ok tn = true /\ node_of w P = Some (p, La ++ Lb) /\ Pos La Lb /\
-    (forall q, node_of (a_move n ok g w) q = if N.eqb P q then Some (p, La ++ n :: Lb) else node_of w q) /\
-    loose_ids (a_move n ok g w) = remove_first n (loose_ids w) /\ doc_shape (a_move n ok g w) = doc_shape w.
+  take_id n (loose w) = Some (tn, l') -> ok tn = true -> w_rw (g tn) {| docs := docs w; loose := l' |} = Some (w2, tt) ->
+  a_move n ok g w = w2 /\
+  exists P p La Lb,
+    In tn (loose w) /\ iid tn = n /\ node_of w P = Some (p, La ++ Lb) /\ Pos P La Lb /\
+    (forall q, node_of w2 q = if N.eqb P q then Some (p, La ++ n :: Lb) else node_of w q) /\
+    loose_ids w2 = remove_first n (loose_ids w) /\ doc_shape w2 = doc_shape w.
 Proof.
-  intros Hg N. unfold a_move, take_loose. destruct (take_id n (loose w)) as [[tn l']|] eqn:Et; [|left; reflexivity].
-  destruct (ok tn) eqn:Eok; [|left; reflexivity].
-  destruct (w_rw (g tn) {| docs := docs w; loose := l' |}) as [[w2 []]|] eqn:Er; [|left; reflexivity]. right.
+  intros Hg N Et Eok Er. split; [unfold a_move, take_loose; rewrite Et, Eok, Er; reflexivity|].
   destruct (take_id_split _ _ _ _ Et) as (l1 & l2 & El & -> & Hn & Hl1).
   assert (Gid : forall s s' a, g tn s = Some (s', a) -> iid s' = iid s) by (intros s s' a H; eapply lands_id, Hg, H).
   destruct (w_rw_flat (g tn) Gid _ _ _ Er) as (Hds & Hlo & pre & post & s & s' & Hgs & E1 & E2).
   destruct (Hg _ _ _ _ Hgs) as (a & b & Hk & -> & HPos). destruct s as [P p kids]. cbn [ikids iid ipayload] in *. subst kids.
-  exists tn, P, p, (map iid a), (map iid b).
+  exists P, p, (map iid a), (map iid b).
   assert (Hin : In tn (loose w)) by (rewrite El; apply in_or_app; right; left; reflexivity).
   assert (Hid : iid tn = n) by (unfold has_id in Hn; apply N.eqb_eq, Hn).
   (* the entries of w and of the result, up to order *)
@@ -325,4 +326,534 @@ Proof.
     apply (lookup_swap q P p (map iid a ++ x :: map iid b) (map iid a ++ map iid b) X); [rewrite wflat_keys; exact N|exact PW|exact PW'].
   - unfold loose_ids, add_loose. cbn [loose]. rewrite map_app. cbn [map]. rewrite Hid. f_equal. exact Hlo.
   - unfold doc_shape, add_loose. cbn [docs]. exact Hds.
+Qed.
+
+(* ------------------------------------------------------------------ queries of the scripts, on the flat view *)
+Lemma first_some_app {X Y} (f : X -> option Y) l1 l2 :
+  first_some f (l1 ++ l2) = match first_some f l1 with Some r => Some r | None => first_some f l2 end.
+Proof. induction l1 as [|a r IH]; [reflexivity|]. cbn [app first_some]. destruct (f a); [reflexivity|exact IH]. Qed.
+
+Definition entry_of (s : itree) : payload * list nid := (ipayload s, map iid (ikids s)).
+
+Lemma t_find_flat q t : lookup q (flat t) = option_map entry_of (t_find q t).
+Proof.
+  induction t as [i p kids IH] using itree_ind'. rewrite flat_eq. cbn [lookup t_find]. destruct (N.eqb i q); [reflexivity|].
+  fold (first_some (t_find q)). induction kids as [|k r IHr]; [reflexivity|]. inversion IH as [|? ? Hk Hr]; subst.
+  cbn [flat_map first_some]. rewrite lookup_app, Hk. destruct (t_find q k); [reflexivity|]. cbn [option_map]. apply IHr, Hr.
+Qed.
+Lemma forest_find_flat q l : lookup q (flat_map flat l) = option_map entry_of (first_some (t_find q) l).
+Proof.
+  induction l as [|t r IH]; [reflexivity|]. cbn [flat_map first_some]. rewrite lookup_app, t_find_flat.
+  destruct (t_find q t); [reflexivity|exact IH].
+Qed.
+Lemma w_find_node_of w q : node_of w q = option_map entry_of (w_find w q).
+Proof. unfold node_of, wflat, w_find. apply forest_find_flat. Qed.
+
+Lemma t_find_in q t s : t_find q t = Some s -> iid s = q /\ incl (flat s) (flat t).
+Proof.
+  induction t as [i p kids IH] using itree_ind'. cbn [t_find]. destruct (N.eqb_spec i q) as [E|E].
+  - intros H. injection H as <-. split; [exact E|apply incl_refl].
+  - fold (first_some (t_find q)). intros H. rewrite flat_eq.
+    assert (K : iid s = q /\ incl (flat s) (flat_map flat kids)).
+    { induction kids as [|k r IHr]; [discriminate|]. inversion IH as [|? ? Hk Hr]; subst. cbn [first_some] in H.
+      cbn [flat_map]. destruct (t_find q k) eqn:Ek.
+      - injection H as ->. destruct (Hk eq_refl) as [H1 H2]. split; [exact H1|]. apply incl_appl, H2.
+      - destruct (IHr Hr H) as [H1 H2]. split; [exact H1|]. apply incl_appr, H2. }
+    destruct K as [K1 K2]. split; [exact K1|]. apply incl_tl, K2.
+Qed.
+Lemma t_find_none_ids q t : t_find q t = None <-> ~ In q (ids t).
+Proof.
+  rewrite <- flat_keys. pose proof (t_find_flat q t) as H. split.
+  - intros E. rewrite E in H. cbn in H. intros Hin. apply in_map_iff in Hin as [[[i p] ks] [Hk Hin]]. cbn in Hk. subst i.
+    clear E. induction (flat t) as [|[[i' p'] ks'] r IH]; [destruct Hin|]. cbn [lookup] in H.
+    destruct (N.eqb_spec i' q) as [E|E]; [discriminate|]. destruct Hin as [Hin|Hin]; [injection Hin as -> _ _; contradiction|].
+    apply IH; assumption.
+  - intros Hn. destruct (t_find q t) eqn:E; [|reflexivity]. exfalso. apply Hn. destruct (t_find_in _ _ _ E) as [H1 H2].
+    apply in_map_iff. exists (q, ipayload i, map iid (ikids i)). split; [reflexivity|]. apply H2. destruct i. cbn in *. subst. left. reflexivity.
+Qed.
+
+(* the parent, found by the same traversal as the rewrite at the parent *)
+Lemma t_parent_entry x t s : t_parent x t = Some s ->
+  In (iid s, ipayload s, map iid (ikids s)) (flat t) /\ In x (map iid (ikids s)).
+Proof.
+  induction t as [i p kids IH] using itree_ind'. cbn [t_parent]. destruct (existsb (has_id x) kids) eqn:E.
+  - intros H. injection H as <-. cbn [iid ipayload ikids]. split; [left; reflexivity|].
+    apply existsb_exists in E as [k [Hk Hx]]. apply in_map_iff. exists k. unfold has_id in Hx. apply N.eqb_eq in Hx. auto.
+  - fold (first_some (t_parent x)). intros H. rewrite flat_eq.
+    assert (K : In (iid s, ipayload s, map iid (ikids s)) (flat_map flat kids) /\ In x (map iid (ikids s))).
+    { clear E. induction kids as [|k r IHr]; [discriminate|]. inversion IH as [|? ? Hk Hr]; subst. cbn [first_some] in H.
+      cbn [flat_map]. destruct (t_parent x k) eqn:Ek.
+      - injection H as ->. destruct (Hk eq_refl) as [H1 H2]. split; [apply in_or_app; left; exact H1|exact H2].
+      - destruct (IHr Hr H) as [H1 H2]. split; [apply in_or_app; right; exact H1|exact H2]. }
+    destruct K as [K1 K2]. split; [right; exact K1|exact K2].
+Qed.
+Lemma w_parent_node_of w x s : NoDup (world_ids_a w) -> w_parent w x = Some s ->
+  node_of w (iid s) = Some (entry_of s) /\ In x (map iid (ikids s)).
+Proof.
+  intros N H. unfold w_parent in H.
+  assert (K : In (iid s, ipayload s, map iid (ikids s)) (wflat w) /\ In x (map iid (ikids s))).
+  { unfold wflat. induction (forest w) as [|t r IH]; [discriminate|]. cbn [first_some] in H. cbn [flat_map].
+    destruct (t_parent x t) eqn:Et.
+    - injection H as ->. destruct (t_parent_entry _ _ _ Et) as [H1 H2]. split; [apply in_or_app; left; exact H1|exact H2].
+    - destruct (IH H) as [H1 H2]. split; [apply in_or_app; right; exact H1|exact H2]. }
+  destruct K as [K1 K2]. split; [|exact K2]. unfold node_of, entry_of. apply lookup_in; [rewrite wflat_keys; exact N|exact K1].
+Qed.
+
+Lemma t_rw_parent x (fn : list itree -> list itree) t :
+  (t_rw (at_parent_of x fn) t = None <-> t_parent x t = None).
+Proof.
+  induction t as [i p kids IH] using itree_ind'. cbn [t_rw t_parent at_parent_of]. destruct (existsb (has_id x) kids).
+  - split; discriminate.
+  - fold (rw_list (t_rw (at_parent_of x fn))). fold (first_some (t_parent x)).
+    assert (K : rw_list (t_rw (at_parent_of x fn)) kids = None <-> first_some (t_parent x) kids = None).
+    { induction kids as [|k r IHr]; [split; reflexivity|]. inversion IH as [|? ? Hk Hr]; subst. cbn [rw_list first_some].
+      fold (rw_list (t_rw (at_parent_of x fn))). destruct (t_rw (at_parent_of x fn) k) as [[k' a]|] eqn:Ek.
+      - destruct (t_parent x k) eqn:Ep; [split; discriminate|]. destruct Hk as [_ Hk]. specialize (Hk eq_refl). discriminate.
+      - destruct (t_parent x k) eqn:Ep; [destruct Hk as [Hk _]; specialize (Hk eq_refl); discriminate|].
+        specialize (IHr Hr). destruct (rw_list (t_rw (at_parent_of x fn)) r) as [[r' a]|].
+        + split; [discriminate|]. intros E. apply IHr in E. discriminate.
+        + split; [intros _; apply IHr; reflexivity|reflexivity]. }
+    destruct (rw_list (t_rw (at_parent_of x fn)) kids) as [[kids' a]|].
+    + split; [discriminate|]. intros E. apply K in E. discriminate.
+    + split; [intros _; apply K; reflexivity|reflexivity].
+Qed.
+
+(* comments / PIs next to a document's root have no children *)
+Definition doc_sibs (d : list itree * itree * list itree) : list itree := match d with (pro, _, epi) => pro ++ epi end.
+Definition sibs_ok (w : world) : Prop := forall d t, In d (docs w) -> In t (doc_sibs d) -> ikids t = [] /\ is_cpik (ikind t) = true.
+
+Lemma rw_list_parent x fn l :
+  rw_list (t_rw (at_parent_of x fn)) l = None <-> first_some (t_parent x) l = None.
+Proof.
+  induction l as [|k r IHr]; [split; reflexivity|]. cbn [rw_list first_some]. fold (rw_list (t_rw (at_parent_of x fn))).
+  pose proof (t_rw_parent x fn k) as Hk.
+  destruct (t_rw (at_parent_of x fn) k) as [[k' a]|]; destruct (t_parent x k).
+  - split; discriminate.
+  - destruct Hk as [_ Hk]. specialize (Hk eq_refl). discriminate.
+  - destruct Hk as [Hk _]. specialize (Hk eq_refl). discriminate.
+  - destruct (rw_list (t_rw (at_parent_of x fn)) r) as [[r' a]|].
+    + split; [discriminate|]. intros E. apply IHr in E. discriminate.
+    + split; [intros _; apply IHr; reflexivity|reflexivity].
+Qed.
+Lemma childless_parent x t : ikids t = [] -> t_parent x t = None.
+Proof. destruct t as [i p kids]. cbn. intros ->. reflexivity. Qed.
+Lemma first_some_none {X Y} (f : X -> option Y) l : (forall t, In t l -> f t = None) -> first_some f l = None.
+Proof. induction l as [|a r IH]; [reflexivity|]. intros H. cbn [first_some]. rewrite (H a (or_introl eq_refl)). apply IH. intros t Ht. apply H. right. exact Ht. Qed.
+
+Lemma rw_docs_parent x fn ds :
+  (forall d t, In d ds -> In t (doc_sibs d) -> ikids t = [] /\ is_cpik (ikind t) = true) ->
+  (rw_docs (at_parent_of x fn) ds = None <-> first_some (t_parent x) (flat_map doc_nodes ds) = None).
+Proof.
+  induction ds as [|[[pro r] epi] rest IH]; intros Hs; [split; reflexivity|]. cbn [rw_docs flat_map doc_nodes].
+  fold (rw_docs (at_parent_of x fn)).
+  assert (Hpro : first_some (t_parent x) pro = None).
+  { apply first_some_none. intros t Ht. apply childless_parent. eapply proj1. apply (Hs (pro, r, epi)); [left; reflexivity|]. apply in_or_app. left. exact Ht. }
+  assert (Hepi : first_some (t_parent x) epi = None).
+  { apply first_some_none. intros t Ht. apply childless_parent. eapply proj1. apply (Hs (pro, r, epi)); [left; reflexivity|]. apply in_or_app. right. exact Ht. }
+  rewrite !first_some_app, Hpro. cbn [first_some]. pose proof (t_rw_parent x fn r) as Hr.
+  assert (IH' := IH (fun d t Hd Ht => Hs d t (or_intror Hd) Ht)).
+  destruct (t_rw (at_parent_of x fn) r) as [[r' a]|]; destruct (t_parent x r).
+  - split; discriminate.
+  - destruct Hr as [_ Hr]. specialize (Hr eq_refl). discriminate.
+  - destruct Hr as [Hr _]. specialize (Hr eq_refl). discriminate.
+  - rewrite Hepi. destruct (rw_docs (at_parent_of x fn) rest) as [[rest' a]|].
+    + split; [discriminate|]. intros E. apply IH' in E. discriminate.
+    + split; [intros _; apply IH'; reflexivity|reflexivity].
+Qed.
+Lemma w_rw_parent x fn w : sibs_ok w -> (w_rw (at_parent_of x fn) w = None <-> w_parent w x = None).
+Proof.
+  intros Hs. unfold w_rw, w_parent, forest. rewrite first_some_app. pose proof (rw_docs_parent x fn (docs w) Hs) as D.
+  pose proof (rw_list_parent x fn (loose w)) as L.
+  destruct (rw_docs (at_parent_of x fn) (docs w)) as [[d' a]|].
+  - split; [discriminate|]. intros E. destruct (first_some (t_parent x) (flat_map doc_nodes (docs w))); [discriminate|].
+    destruct D as [_ D]. specialize (D eq_refl). discriminate.
+  - destruct D as [D _]. rewrite (D eq_refl). destruct (rw_list (t_rw (at_parent_of x fn)) (loose w)) as [[l' a]|].
+    + split; [discriminate|]. intros E. apply L in E. discriminate.
+    + split; [intros _; apply L; reflexivity|reflexivity].
+Qed.
+
+(* ------------------------------------------------------------------ when a rewrite succeeds *)
+Lemma rw_list_skip {A} (rec : itree -> option (itree * A)) T l1 l2 : rec T = None ->
+  (rw_list rec (l1 ++ T :: l2) = None <-> rw_list rec (l1 ++ l2) = None).
+Proof.
+  intros HT. induction l1 as [|t r IH]; cbn [app rw_list].
+  - rewrite HT. fold (rw_list rec). destruct (rw_list rec l2) as [[? ?]|]; split; auto; discriminate.
+  - destruct (rec t) as [[t' a]|]; [split; discriminate|]. fold (rw_list rec).
+    destruct (rw_list rec (r ++ T :: l2)) as [[? ?]|]; destruct (rw_list rec (r ++ l2)) as [[? ?]|]; try (split; auto; discriminate).
+    + destruct IH as [_ IH]. specialize (IH eq_refl). discriminate.
+    + destruct IH as [IH _]. specialize (IH eq_refl). discriminate.
+Qed.
+(* taking a parentless tree that the rewrite would not touch out of the world does not make the rewrite fail *)
+Lemma w_rw_without {A} (g : itree -> option (itree * A)) w T l1 l2 : loose w = l1 ++ T :: l2 -> t_rw g T = None ->
+  w_rw g w <> None -> w_rw g {| docs := docs w; loose := l1 ++ l2 |} <> None.
+Proof.
+  intros El HT. unfold w_rw. cbn [docs loose]. destruct (rw_docs g (docs w)) as [[d' a]|]; [discriminate|].
+  rewrite El. pose proof (rw_list_skip (t_rw g) T l1 l2 HT) as K.
+  destruct (rw_list (t_rw g) (l1 ++ T :: l2)) as [[? ?]|]; [|intros H; contradiction].
+  destruct (rw_list (t_rw g) (l1 ++ l2)) as [[? ?]|]; [discriminate|]. destruct K as [_ K]. specialize (K eq_refl). discriminate.
+Qed.
+
+(* unique identities: the tree with identity n is the one *)
+Lemma nodup_app_disj {X} (l1 l2 : list X) x : NoDup (l1 ++ l2) -> In x l1 -> In x l2 -> False.
+Proof.
+  induction l1 as [|a r IH]; intros N H1 H2; [destruct H1|]. inversion N as [|? ? Hn Hr]; subst.
+  destruct H1 as [->|H1]; [apply Hn; apply in_or_app; right; exact H2|]. apply (IH Hr H1 H2).
+Qed.
+Lemma iid_in_ids t : In (iid t) (ids t). Proof. destruct t. left. reflexivity. Qed.
+Lemma forest_find_unique l T : NoDup (flat_map ids l) -> In T l -> first_some (t_find (iid T)) l = Some T.
+Proof.
+  induction l as [|t r IH]; intros N Hin; [destruct Hin|]. cbn [flat_map] in N. cbn [first_some].
+  destruct Hin as [->|Hin].
+  - destruct T as [i p k]. cbn [t_find iid]. rewrite N.eqb_refl. reflexivity.
+  - destruct (t_find (iid T) t) eqn:E.
+    + exfalso. assert (H1 : In (iid T) (ids t)).
+      { destruct (t_find_none_ids (iid T) t) as [_ H]. destruct (in_dec N.eq_dec (iid T) (ids t)) as [Hi|Hi]; [exact Hi|].
+        rewrite (H Hi) in E. discriminate. }
+      apply (nodup_app_disj _ _ _ N H1). apply in_flat_map. exists T. split; [exact Hin|apply iid_in_ids].
+    + apply IH; [|exact Hin]. apply (Permutation_NoDup (Permutation_app_comm _ _)) in N. apply nodup_app_l in N. exact N.
+Qed.
+Lemma loose_find_unique w T : NoDup (world_ids_a w) -> In T (loose w) -> w_find w (iid T) = Some T.
+Proof.
+  intros N Hin. unfold w_find. apply forest_find_unique; [exact N|]. unfold forest. apply in_or_app. right. exact Hin.
+Qed.
+
+Lemma rw_list_exists {A} (rec : itree -> option (itree * A)) l k : In k l -> rec k <> None -> rw_list rec l <> None.
+Proof.
+  induction l as [|t r IH]; intros Hin Hk; [destruct Hin|]. cbn [rw_list]. destruct (rec t) as [[t' a]|] eqn:Et; [discriminate|].
+  fold (rw_list rec). destruct Hin as [->|Hin]; [contradiction|]. specialize (IH Hin Hk).
+  destruct (rw_list rec r) as [[? ?]|]; [discriminate|contradiction].
+Qed.
+Lemma first_some_in {X Y} (f : X -> option Y) l y : first_some f l = Some y -> exists t, In t l /\ f t = Some y.
+Proof.
+  induction l as [|a r IH]; [discriminate|]. cbn [first_some]. destruct (f a) eqn:E.
+  - intros H. injection H as <-. exists a. split; [left; reflexivity|exact E].
+  - intros H. destruct (IH H) as (t & H1 & H2). exists t. split; [right; exact H1|exact H2].
+Qed.
+Lemma t_rw_root_some {A} (g : itree -> option (itree * A)) i p kids k :
+  In k kids -> t_rw g k <> None -> t_rw g (INode i p kids) <> None.
+Proof.
+  intros Hin Hk. cbn [t_rw]. destruct (g (INode i p kids)); [discriminate|]. fold (rw_list (t_rw g)).
+  pose proof (rw_list_exists (t_rw g) kids k Hin Hk) as H. destruct (rw_list (t_rw g) kids) as [[? ?]|]; [discriminate|contradiction].
+Qed.
+
+Lemma t_rw_at_tag p fn t s : t_find p t = Some s -> ikind s = NTag -> t_rw (at_tag p fn) t <> None.
+Proof.
+  induction t as [i q kids IH] using itree_ind'. cbn [t_find]. destruct (N.eqb_spec i p) as [E|E].
+  - intros H Hk. injection H as <-. cbn [t_rw]. unfold at_tag, has_id. cbn [iid]. rewrite E, N.eqb_refl. unfold ikind in *. cbn [ipayload] in *.
+    rewrite Hk. cbn. discriminate.
+  - fold (first_some (t_find p)). intros H Hk. destruct (first_some_in _ _ _ H) as (k & Hin & Hf).
+    apply (t_rw_root_some _ i q kids k Hin). rewrite Forall_forall in IH. apply (IH k Hin Hf Hk).
+Qed.
+Lemma w_rw_exists {A} (g : itree -> option (itree * A)) w t :
+  (In t (loose w) \/ exists pro epi, In (pro, t, epi) (docs w)) -> t_rw g t <> None -> w_rw g w <> None.
+Proof.
+  intros Hin Ht. unfold w_rw. destruct (rw_docs g (docs w)) as [[d' a]|] eqn:Ed; [discriminate|].
+  destruct Hin as [Hin|(pro & epi & Hin)].
+  - pose proof (rw_list_exists (t_rw g) (loose w) t Hin Ht) as H. destruct (rw_list (t_rw g) (loose w)) as [[? ?]|]; [discriminate|contradiction].
+  - exfalso. clear -Ed Hin Ht. induction (docs w) as [|[[pro' r'] epi'] rest IH]; [destruct Hin|]. cbn [rw_docs] in Ed.
+    destruct Hin as [E|Hin].
+    + injection E as -> -> ->. destruct (t_rw g t) as [[? ?]|]; [discriminate|contradiction].
+    + destruct (t_rw g r') as [[? ?]|]; [discriminate|]. fold (rw_docs g) in Ed. destruct (rw_docs g rest) as [[? ?]|]; [discriminate|].
+      apply IH; auto.
+Qed.
+Lemma w_rw_at_tag p fn w s : sibs_ok w -> w_find w p = Some s -> ikind s = NTag -> w_rw (at_tag p fn) w <> None.
+Proof.
+  intros Hs Hf Hk. unfold w_find, forest in Hf. rewrite first_some_app in Hf.
+  destruct (first_some (t_find p) (flat_map doc_nodes (docs w))) eqn:Ed.
+  - injection Hf as ->. destruct (first_some_in _ _ _ Ed) as (t & Hin & Ht). apply in_flat_map in Hin as ([[pro r] epi] & Hd & Hin).
+    cbn [doc_nodes] in Hin. apply in_app_or in Hin. destruct Hin as [Hin|[<-|Hin]].
+    + exfalso. destruct (Hs _ t Hd (in_or_app _ _ _ (or_introl Hin))) as [H1 H2]. destruct t as [i q k]. cbn in H1. subst k.
+      cbn [t_find] in Ht. destruct (N.eqb i p); [injection Ht as <-; rewrite Hk in H2; discriminate|discriminate].
+    + apply (w_rw_exists _ w r); [right; exists pro, epi; exact Hd|]. eapply t_rw_at_tag; eassumption.
+    + exfalso. destruct (Hs _ t Hd (in_or_app _ _ _ (or_intror Hin))) as [H1 H2]. destruct t as [i q k]. cbn in H1. subst k.
+      cbn [t_find] in Ht. destruct (N.eqb i p); [injection Ht as <-; rewrite Hk in H2; discriminate|discriminate].
+  - destruct (first_some_in _ _ _ Hf) as (t & Hin & Ht). apply (w_rw_exists _ w t); [left; exact Hin|].
+    eapply t_rw_at_tag; eassumption.
+Qed.
+
+(* two local functions that apply at the same nodes make the rewrite succeed on the same worlds *)
+Section SameDom.
+  Context {A B : Type}.
+  Variable g1 : itree -> option (itree * A).
+  Variable g2 : itree -> option (itree * B).
+  Hypothesis dom : forall s, g1 s = None <-> g2 s = None.
+  Lemma rw_list_dom (rec1 : itree -> option (itree * A)) (rec2 : itree -> option (itree * B)) l :
+    Forall (fun k => rec1 k = None <-> rec2 k = None) l -> (rw_list rec1 l = None <-> rw_list rec2 l = None).
+  Proof.
+    induction l as [|k r IH]; intros HF; [split; reflexivity|]. inversion HF as [|? ? Hk Hr]; subst. cbn [rw_list].
+    fold (rw_list rec1). fold (rw_list rec2). specialize (IH Hr).
+    destruct (rec1 k) as [[? ?]|]; destruct (rec2 k) as [[? ?]|].
+    - split; discriminate.
+    - destruct Hk as [_ Hk]. specialize (Hk eq_refl). discriminate.
+    - destruct Hk as [Hk _]. specialize (Hk eq_refl). discriminate.
+    - destruct (rw_list rec1 r) as [[? ?]|]; destruct (rw_list rec2 r) as [[? ?]|]; try (split; auto; discriminate).
+      + destruct IH as [_ IH]. specialize (IH eq_refl). discriminate.
+      + destruct IH as [IH _]. specialize (IH eq_refl). discriminate.
+  Qed.
+  Lemma t_rw_dom t : t_rw g1 t = None <-> t_rw g2 t = None.
+  Proof.
+    induction t as [i p kids IH] using itree_ind'. cbn [t_rw]. pose proof (dom (INode i p kids)) as D.
+    fold (rw_list (t_rw g1)). fold (rw_list (t_rw g2)). pose proof (rw_list_dom (t_rw g1) (t_rw g2) kids IH) as K.
+    destruct (g1 (INode i p kids)) as [[? ?]|]; destruct (g2 (INode i p kids)) as [[? ?]|].
+    - split; discriminate.
+    - destruct D as [_ D]. specialize (D eq_refl). discriminate.
+    - destruct D as [D _]. specialize (D eq_refl). discriminate.
+    - destruct (rw_list (t_rw g1) kids) as [[? ?]|]; destruct (rw_list (t_rw g2) kids) as [[? ?]|]; try (split; auto; discriminate).
+      + destruct K as [_ K]. specialize (K eq_refl). discriminate.
+      + destruct K as [K _]. specialize (K eq_refl). discriminate.
+  Qed.
+  Lemma rw_docs_dom ds : rw_docs g1 ds = None <-> rw_docs g2 ds = None.
+  Proof.
+    induction ds as [|[[pro r] epi] rest IH]; [split; reflexivity|]. cbn [rw_docs]. fold (rw_docs g1). fold (rw_docs g2).
+    pose proof (t_rw_dom r) as D.
+    destruct (t_rw g1 r) as [[? ?]|]; destruct (t_rw g2 r) as [[? ?]|].
+    - split; discriminate.
+    - destruct D as [_ D]. specialize (D eq_refl). discriminate.
+    - destruct D as [D _]. specialize (D eq_refl). discriminate.
+    - destruct (rw_docs g1 rest) as [[? ?]|]; destruct (rw_docs g2 rest) as [[? ?]|]; try (split; auto; discriminate).
+      + destruct IH as [_ IH]. specialize (IH eq_refl). discriminate.
+      + destruct IH as [IH _]. specialize (IH eq_refl). discriminate.
+  Qed.
+  Lemma w_rw_dom w : w_rw g1 w = None <-> w_rw g2 w = None.
+  Proof.
+    unfold w_rw. pose proof (rw_docs_dom (docs w)) as D.
+    assert (L : rw_list (t_rw g1) (loose w) = None <-> rw_list (t_rw g2) (loose w) = None)
+      by (apply rw_list_dom, Forall_forall; intros k _; apply t_rw_dom).
+    destruct (rw_docs g1 (docs w)) as [[? ?]|]; destruct (rw_docs g2 (docs w)) as [[? ?]|].
+    - split; discriminate.
+    - destruct D as [_ D]. specialize (D eq_refl). discriminate.
+    - destruct D as [D _]. specialize (D eq_refl). discriminate.
+    - destruct (rw_list (t_rw g1) (loose w)) as [[? ?]|]; destruct (rw_list (t_rw g2) (loose w)) as [[? ?]|]; try (split; auto; discriminate).
+      + destruct L as [_ L]. specialize (L eq_refl). discriminate.
+      + destruct L as [L _]. specialize (L eq_refl). discriminate.
+  Qed.
+End SameDom.
+
+Lemma take_id_none_iff x l : take_id x l = None <-> existsb (has_id x) l = false.
+Proof.
+  induction l as [|t r IH]; [split; reflexivity|]. cbn [take_id existsb]. destruct (has_id x t); [split; discriminate|]. cbn [orb].
+  destruct (take_id x r) as [[? ?]|]; destruct (existsb (has_id x) r); try (split; auto; discriminate).
+  - destruct IH as [_ IH]. specialize (IH eq_refl). discriminate.
+  - destruct IH as [IH _]. specialize (IH eq_refl). discriminate.
+Qed.
+Lemma extract_dom x fn s : g_extract x s = None <-> at_parent_of x fn s = None.
+Proof.
+  destruct s as [i p kids]. cbn [g_extract at_parent_of]. pose proof (take_id_none_iff x kids) as K.
+  destruct (take_id x kids) as [[? ?]|]; destruct (existsb (has_id x) kids); try (split; auto; discriminate).
+  - destruct K as [_ K]. specialize (K eq_refl). discriminate.
+  - destruct K as [K _]. specialize (K eq_refl). discriminate.
+Qed.
+
+(* an entry that lists x among the children means x has a parent *)
+Lemma entry_parent x t P p ks : In (P, p, ks) (flat t) -> In x ks -> t_parent x t <> None.
+Proof.
+  induction t as [i q kids IH] using itree_ind'. rewrite flat_eq. intros [E|Hin] Hx.
+  - injection E as -> -> <-. cbn [t_parent]. assert (H : existsb (has_id x) kids = true).
+    { rewrite existsb_ids. apply existsb_exists. exists x. split; [exact Hx|apply N.eqb_refl]. }
+    rewrite H. discriminate.
+  - cbn [t_parent]. destruct (existsb (has_id x) kids); [discriminate|]. fold (first_some (t_parent x)).
+    apply in_flat_map in Hin as (k & Hk & Hin). rewrite Forall_forall in IH. specialize (IH k Hk Hin Hx).
+    clear -Hk IH. induction kids as [|k' r IHr]; [destruct Hk|]. cbn [first_some]. destruct (t_parent x k') eqn:E; [discriminate|].
+    destruct Hk as [->|Hk]; [contradiction|]. apply IHr, Hk.
+Qed.
+Lemma node_of_parent w x P p ks : node_of w P = Some (p, ks) -> In x ks -> w_parent w x <> None.
+Proof.
+  unfold node_of, w_parent, wflat. intros H Hx. apply lookup_some_in in H. apply in_flat_map in H as (t & Ht & Hin).
+  pose proof (entry_parent x t P p ks Hin Hx) as Hp. clear -Ht Hp. induction (forest w) as [|t' r IH]; [destruct Ht|].
+  cbn [first_some]. destruct (t_parent x t') eqn:E; [discriminate|]. destruct Ht as [->|Ht]; [contradiction|]. apply IH, Ht.
+Qed.
+
+Lemma t_parent_incl x t s : t_parent x t = Some s -> incl (flat s) (flat t).
+Proof.
+  induction t as [i p kids IH] using itree_ind'. cbn [t_parent]. destruct (existsb (has_id x) kids).
+  - intros H. injection H as <-. apply incl_refl.
+  - fold (first_some (t_parent x)). intros H. destruct (first_some_in _ _ _ H) as (k & Hk & Hp). rewrite Forall_forall in IH.
+    rewrite flat_eq. apply incl_tl. intros e He. apply in_flat_map. exists k. split; [exact Hk|apply (IH k Hk Hp), He].
+Qed.
+Lemma w_parent_incl w x s : w_parent w x = Some s -> incl (flat s) (wflat w).
+Proof.
+  unfold w_parent, wflat. intros H. destruct (first_some_in _ _ _ H) as (t & Ht & Hp). intros e He. apply in_flat_map.
+  exists t. split; [exact Ht|apply (t_parent_incl _ _ _ Hp), He].
+Qed.
+(* under unique identities a child of the parent found for x that carries x's identity is the node x *)
+Lemma kid_is_node w x s xk sx : NoDup (world_ids_a w) -> w_parent w x = Some s -> In xk (ikids s) -> iid xk = x ->
+  w_find w x = Some sx -> ipayload xk = ipayload sx.
+Proof.
+  intros N Hp Hk Hid Hf. pose proof (w_find_node_of w x) as H. rewrite Hf in H. cbn [option_map] in H.
+  assert (Hin : In (x, ipayload xk, map iid (ikids xk)) (wflat w)).
+  { apply (w_parent_incl _ _ _ Hp). destruct s as [i p kids]. rewrite flat_eq. right. cbn [ikids] in Hk. apply in_flat_map.
+    exists xk. split; [exact Hk|]. destruct xk as [j q kk]. cbn in *. subst j. left. reflexivity. }
+  unfold node_of in H. rewrite (lookup_in _ _ _ _ (eq_ind_r (fun l => NoDup l) N (wflat_keys w)) Hin) in H.
+  unfold entry_of in H. injection H as H _. exact H.
+Qed.
+
+Lemma find_some_existsb x (l : list itree) : existsb (has_id x) l = true -> exists xk, find (has_id x) l = Some xk /\ In xk l /\ iid xk = x.
+Proof.
+  induction l as [|t r IH]; [discriminate|]. cbn [existsb find]. destruct (has_id x t) eqn:E.
+  - intros _. exists t. unfold has_id in E. apply N.eqb_eq in E. auto using in_eq.
+  - cbn [orb]. intros H. destruct (IH H) as (xk & H1 & H2 & H3). exists xk. auto using in_cons.
+Qed.
+Lemma find_none_existsb x (l : list itree) : existsb (has_id x) l = false -> find (has_id x) l = None.
+Proof. induction l as [|t r IH]; [reflexivity|]. cbn [existsb find]. destruct (has_id x t); [discriminate|]. exact IH. Qed.
+
+Lemma t_rw_before x n t s : t_parent x t = Some s ->
+  (forall xk, In xk (ikids s) -> iid xk = x -> (is_itext n && negb (is_itext xk))%bool = false) ->
+  t_rw (g_before x n) t <> None.
+Proof.
+  induction t as [i p kids IH] using itree_ind'. cbn [t_parent]. destruct (existsb (has_id x) kids) eqn:E.
+  - intros H Hc. injection H as <-. cbn [t_rw g_before]. destruct (find_some_existsb _ _ E) as (xk & Hf & Hin & Hid).
+    rewrite Hf, (Hc xk Hin Hid). discriminate.
+  - fold (first_some (t_parent x)). intros H Hc. destruct (first_some_in _ _ _ H) as (k & Hk & Hp).
+    apply (t_rw_root_some _ i p kids k Hk). rewrite Forall_forall in IH. apply (IH k Hk Hp Hc).
+Qed.
+Lemma w_parent_tree w x s : sibs_ok w -> w_parent w x = Some s ->
+  exists t, (In t (loose w) \/ exists pro epi, In (pro, t, epi) (docs w)) /\ t_parent x t = Some s.
+Proof.
+  intros Hs H. unfold w_parent, forest in H. rewrite first_some_app in H.
+  destruct (first_some (t_parent x) (flat_map doc_nodes (docs w))) eqn:Ed.
+  - injection H as ->. destruct (first_some_in _ _ _ Ed) as (t & Hin & Ht). apply in_flat_map in Hin as ([[pro r] epi] & Hd & Hin).
+    cbn [doc_nodes] in Hin. apply in_app_or in Hin. destruct Hin as [Hin|[<-|Hin]].
+    + exfalso. destruct (Hs _ t Hd (in_or_app _ _ _ (or_introl Hin))) as [H1 _]. rewrite (childless_parent x t H1) in Ht. discriminate.
+    + exists r. split; [right; exists pro, epi; exact Hd|exact Ht].
+    + exfalso. destruct (Hs _ t Hd (in_or_app _ _ _ (or_intror Hin))) as [H1 _]. rewrite (childless_parent x t H1) in Ht. discriminate.
+  - destruct (first_some_in _ _ _ H) as (t & Hin & Ht). exists t. auto.
+Qed.
+Lemma w_rw_before x n w s : sibs_ok w -> w_parent w x = Some s ->
+  (forall xk, In xk (ikids s) -> iid xk = x -> (is_itext n && negb (is_itext xk))%bool = false) ->
+  w_rw (g_before x n) w <> None.
+Proof.
+  intros Hs Hp Hc. destruct (w_parent_tree _ _ _ Hs Hp) as (t & Ht & Hpt). apply (w_rw_exists _ w t Ht).
+  eapply t_rw_before; eassumption.
+Qed.
+
+(* nodes with children are tag nodes *)
+Definition tags_only (w : world) : Prop := forall q p ks, node_of w q = Some (p, ks) -> ks <> [] -> kind_of_payload p = NTag.
+
+(* ------------------------------------------------------------------ a node has one parent *)
+Definition all_kid_ids (l : list entry) : list nid := flat_map (fun e : entry => snd e) l.
+Lemma all_kid_ids_app l1 l2 : all_kid_ids (l1 ++ l2) = all_kid_ids l1 ++ all_kid_ids l2.
+Proof. apply flat_map_app. Qed.
+Lemma perm_cons_flat {X Y} (h : X -> Y) (K : X -> list Y) l :
+  Permutation (flat_map (fun k => h k :: K k) l) (map h l ++ flat_map K l).
+Proof.
+  induction l as [|k r IH]; [reflexivity|]. cbn [flat_map map app]. apply perm_skip. rewrite IH.
+  rewrite !app_assoc. apply Permutation_app_tail. apply Permutation_app_comm.
+Qed.
+Lemma ids_kid_ids t : Permutation (ids t) (iid t :: all_kid_ids (flat t)).
+Proof.
+  induction t as [i p kids IH] using itree_ind'. rewrite ids_eq, flat_eq. cbn [iid all_kid_ids flat_map snd]. apply perm_skip.
+  fold (all_kid_ids (flat_map flat kids)).
+  assert (E : Permutation (flat_map ids kids) (flat_map (fun k => iid k :: all_kid_ids (flat k)) kids)).
+  { induction kids as [|k r IHr]; [reflexivity|]. inversion IH as [|? ? Hk Hr]; subst. cbn [flat_map]. rewrite Hk, (IHr Hr). reflexivity. }
+  rewrite E, perm_cons_flat. apply Permutation_app_head.
+  clear. induction kids as [|k r IHr]; [reflexivity|]. cbn [flat_map]. rewrite all_kid_ids_app, IHr. reflexivity.
+Qed.
+Lemma world_kid_ids_nodup w : NoDup (world_ids_a w) -> NoDup (all_kid_ids (wflat w)).
+Proof.
+  unfold world_ids_a, wflat. induction (forest w) as [|t r IH]; intros N; [constructor|]. cbn [flat_map] in *.
+  rewrite all_kid_ids_app. rewrite (ids_kid_ids t) in N. cbn [app] in N. inversion N as [|? ? _ N']; subst.
+  assert (N2 : NoDup (flat_map ids r)) by (apply (Permutation_NoDup (Permutation_app_comm _ _)) in N'; apply nodup_app_l in N'; exact N').
+  specialize (IH N2). clear N.
+  (* kid ids of t are ids of t; kid ids of the rest are ids of the rest *)
+  assert (S2 : incl (all_kid_ids (flat_map flat r)) (flat_map ids r)).
+  { clear. induction r as [|t r IH]; [intros x []|]. cbn [flat_map]. rewrite all_kid_ids_app. intros x Hx. apply in_app_or in Hx.
+    apply in_or_app. destruct Hx as [Hx|Hx]; [left|right; apply IH, Hx].
+    apply (Permutation_in _ (Permutation_sym (ids_kid_ids t))). right. exact Hx. }
+  revert N'. generalize (all_kid_ids (flat t)) as A. intros A N'. induction A as [|a A IHA]; [exact IH|]. cbn [app] in *.
+  inversion N' as [|? ? Hn Hr]; subst. constructor; [|apply IHA, Hr]. intros Hin. apply Hn. apply in_app_or in Hin. apply in_or_app.
+  destruct Hin as [Hin|Hin]; [left; exact Hin|right; apply S2, Hin].
+Qed.
+Lemma nodup_flat_unique {X} (l : list (list X)) a b y : NoDup (concat l) -> In a l -> In b l -> In y a -> In y b -> a = b.
+Proof.
+  induction l as [|c r IH]; intros N Ha Hb Hya Hyb; [destruct Ha|]. cbn [concat] in N.
+  assert (Nr : NoDup (concat r)) by (apply (Permutation_NoDup (Permutation_app_comm _ _)) in N; apply nodup_app_l in N; exact N).
+  destruct Ha as [->|Ha], Hb as [->|Hb]; [reflexivity| | |apply IH; assumption].
+  - exfalso. apply (nodup_app_disj _ _ y N Hya). apply in_concat. exists b. auto.
+  - exfalso. apply (nodup_app_disj _ _ y N Hyb). apply in_concat. exists a. auto.
+Qed.
+Lemma parent_unique w P p ks P' p' ks' y : NoDup (world_ids_a w) ->
+  node_of w P = Some (p, ks) -> node_of w P' = Some (p', ks') -> In y ks -> In y ks' -> P = P' /\ ks = ks'.
+Proof.
+  intros N H1 H2 Hy Hy'. apply world_kid_ids_nodup in N. unfold all_kid_ids in N. rewrite flat_map_concat_map in N.
+  unfold node_of in *. apply lookup_some_in in H1, H2.
+  assert (E : ks = ks').
+  { apply (nodup_flat_unique _ ks ks' y N); try assumption.
+    - apply in_map_iff. exists (P, p, ks). auto.
+    - apply in_map_iff. exists (P', p', ks'). auto. }
+  split; [|exact E]. subst ks'.
+  (* same child list and unique identities: same entry *)
+  destruct ks as [|k0 ks0]; [destruct Hy|].
+  (* the position of the entries: use NoDup of the concatenation once more via the first child *)
+  assert (In k0 (k0 :: ks0)) by (left; reflexivity).
+  clear Hy Hy'. revert N H1 H2. generalize (wflat w) as l.
+  induction l as [|e r IH]; intros N H1 H2; [destruct H1|]. cbn [map concat] in N.
+  assert (Nr : NoDup (concat (map (fun e : entry => snd e) r))) by (apply (Permutation_NoDup (Permutation_app_comm _ _)) in N; apply nodup_app_l in N; exact N).
+  destruct H1 as [->|H1], H2 as [E2|H2].
+  - injection E2 as -> _. reflexivity.
+  - exfalso. cbn [snd] in N. apply (nodup_app_disj _ _ k0 N (or_introl eq_refl)). apply in_concat. exists (k0 :: ks0). split; [|left; reflexivity].
+    apply in_map_iff. exists (P', p', k0 :: ks0). auto.
+  - exfalso. subst e. cbn [snd] in N. apply (nodup_app_disj _ _ k0 N (or_introl eq_refl)). apply in_concat. exists (k0 :: ks0). split; [|left; reflexivity].
+    apply in_map_iff. exists (P, p, k0 :: ks0). auto.
+  - apply IH; assumption.
+Qed.
+
+(* ------------------------------------------------------------------ visible children *)
+Lemma w_find_incl w q t : w_find w q = Some t -> iid t = q /\ incl (flat t) (wflat w).
+Proof.
+  unfold w_find, wflat. intros H. destruct (first_some_in _ _ _ H) as (T & HT & Hf). destruct (t_find_in _ _ _ Hf) as [H1 H2].
+  split; [exact H1|]. intros e He. apply in_flat_map. exists T. split; [exact HT|apply H2, He].
+Qed.
+Lemma kid_entry w p t k : NoDup (world_ids_a w) -> w_find w p = Some t -> In k (ikids t) -> node_of w (iid k) = Some (entry_of k).
+Proof.
+  intros N Hf Hk. destruct (w_find_incl _ _ _ Hf) as [_ Hi]. unfold node_of, entry_of.
+  apply lookup_in; [rewrite wflat_keys; exact N|]. apply Hi. destruct t as [i q kids]. rewrite flat_eq. right. cbn [ikids] in Hk.
+  apply in_flat_map. exists k. split; [exact Hk|]. destruct k. left. reflexivity.
+Qed.
+Lemma kids_of_find w p t : w_find w p = Some t -> kids_of w p = map iid (ikids t).
+Proof. intros H. unfold kids_of. rewrite w_find_node_of, H. reflexivity. Qed.
+Lemma vis_children_ids F w p : NoDup (world_ids_a w) -> vis_children F w p = filter (vis_id F w) (kids_of w p).
+Proof.
+  intros N. unfold vis_children, children_ids. destruct (w_find w p) as [t|] eqn:Hf.
+  - rewrite (kids_of_find _ _ _ Hf). assert (H : forall k, In k (ikids t) -> vis_id F w (iid k) = vis F (ikind k)).
+    { intros k Hk. unfold vis_id, kind_id. rewrite (kid_entry _ _ _ _ N Hf Hk). reflexivity. }
+    induction (ikids t) as [|k r IH]; [reflexivity|]. cbn [filter map]. rewrite (H k (or_introl eq_refl)).
+    destruct (vis F (ikind k)); cbn [map]; rewrite IH; auto; intros k' Hk'; apply H; right; exact Hk'.
+  - unfold kids_of. rewrite w_find_node_of, Hf. reflexivity.
+Qed.
+
+(* ------------------------------------------------------------------ what lies inside a parentless tree *)
+Lemma world_ids_perm w : Permutation (world_ids_a w) (map iid (forest w) ++ all_kid_ids (wflat w)).
+Proof.
+  unfold world_ids_a, wflat. induction (forest w) as [|t r IH]; [reflexivity|]. cbn [flat_map map app].
+  rewrite all_kid_ids_app, (ids_kid_ids t), IH. cbn [app]. apply perm_skip. rewrite !app_assoc. apply Permutation_app_tail.
+  apply Permutation_app_comm.
+Qed.
+Lemma entry_ids t P p ks : In (P, p, ks) (flat t) -> In P (ids t) /\ incl ks (ids t).
+Proof.
+  intros H. split.
+  - rewrite <- flat_keys. apply in_map_iff. exists (P, p, ks). auto.
+  - intros y Hy. apply (Permutation_in _ (Permutation_sym (ids_kid_ids t))). right. unfold all_kid_ids. apply in_flat_map.
+    exists (P, p, ks). auto.
+Qed.
+Lemma key_entry t P : In P (ids t) -> exists p ks, In (P, p, ks) (flat t).
+Proof. rewrite <- flat_keys. intros H. apply in_map_iff in H as ([[i p] ks] & E & Hin). cbn in E. subst. eauto. Qed.
+Lemma loose_flat_incl w tn : In tn (loose w) -> incl (flat tn) (wflat w).
+Proof. intros H e He. unfold wflat, forest. apply in_flat_map. exists tn. split; [apply in_or_app; right; exact H|exact He]. Qed.
+
+Lemma outside_parent w tn x P p ks : NoDup (world_ids_a w) -> In tn (loose w) -> ~ In x (ids tn) ->
+  node_of w P = Some (p, ks) -> In x ks -> ~ In P (ids tn) /\ (forall y, In y ks -> ~ In y (ids tn)).
+Proof.
+  intros N Hin Hx HP Hxk. assert (Nk : NoDup (map ekey (wflat w))) by (rewrite wflat_keys; exact N).
+  assert (HPn : ~ In P (ids tn)).
+  { intros HPi. destruct (key_entry _ _ HPi) as (p' & ks' & He). pose proof (lookup_in _ _ _ _ Nk (loose_flat_incl _ _ Hin _ He)) as Hl.
+    unfold node_of in HP. rewrite Hl in HP. injection HP as -> ->. apply Hx. apply (proj2 (entry_ids _ _ _ _ He)), Hxk. }
+  split; [exact HPn|]. intros y Hy Hyi.
+  apply (Permutation_in _ (ids_kid_ids tn)) in Hyi. destruct Hyi as [E|Hyi].
+  - (* y is the parentless root itself: it cannot also be somebody's child *)
+    pose proof (Permutation_NoDup (world_ids_perm w) N) as N2. apply (nodup_app_disj _ _ y N2).
+    + rewrite <- E. apply in_map. unfold forest. apply in_or_app. right. exact Hin.
+    + unfold all_kid_ids. apply in_flat_map. exists (P, p, ks). split; [apply lookup_some_in; exact HP|exact Hy].
+  - unfold all_kid_ids in Hyi. apply in_flat_map in Hyi as ([[P' p'] ks'] & He & Hy'). cbn [snd] in Hy'.
+    pose proof (lookup_in _ _ _ _ Nk (loose_flat_incl _ _ Hin _ He)) as Hl.
+    destruct (parent_unique w P p ks P' p' ks' y N HP Hl Hy Hy') as [-> _]. apply HPn. apply (proj1 (entry_ids _ _ _ _ He)).
 Qed.
